@@ -92,7 +92,7 @@ def compare(ck, got, exp, site, tol=1e-7):
 # ------------------------------------------------------------------------------------------- segments
 @st.composite
 def seg_case(draw, tier="quick"):
-    what = draw(st.sampled_from(["seg_seg2", "seg_line2", "seg_seg3", "seg_plane3", "seg_seg2_coll"]))
+    what = draw(st.sampled_from(["seg_seg2", "seg_line2", "seg_seg3", "seg_plane3", "seg_seg2_coll", "ray_line2"]))
     return {"what": what, "v": [draw(C.ints(5)) for _ in range(12)], "mode": draw(st.sampled_from(["generic", "generic", "touch_endpoint", "collinear", "parallel", "T"])),
             "frame": [draw(C.ints(3)) for _ in range(9)], "t": draw(st.integers(-2, 4)), "skew": draw(st.booleans()),
             "derive": draw(st.sampled_from(Z.DERIVATIONS)), "move": [draw(st.integers(-4, 4)) for _ in range(3)],
@@ -167,6 +167,28 @@ def run_seg(c):
             ck.add(f)
         else:
             compare(ck, list(r2), exp, f"{what}:{mode}:swapped")
+        return ck.result()
+    if what == "ray_line2":
+        # a ray (segment with an end point at infinity) from a in the direction b - a, and the line through cc and d
+        e = [b[0] - a[0], b[1] - a[1]]
+        dd = [d[0] - cc[0], d[1] - cc[1]]
+        den = e[0] * dd[1] - e[1] * dd[0]
+        off = (cc[0] - a[0]) * dd[1] - (cc[1] - a[1]) * dd[0]
+        ray = Segment(Point(hom(a) * ES[0]), Point(np.array([float(e[0]), float(e[1]), 0.0]) * abs(ES[1])))
+        L = Line(P(cc), P(d))
+        r, f = call(f"ray_line2:{mode}", ray.intersect, L)
+        if f:
+            return [f]
+        if den == 0:
+            if off == 0:
+                return []  # the line contains the ray: infinitely many common points
+            # parallel: the only common point is the end point at infinity of the ray
+            r = list(r)
+            ck.check(len(r) == 1 and C.peq_all(np.asarray(r[0].array), np.array([float(e[0]), float(e[1]), 0.0]), 1, 1e-9), f"ray_line2:{mode}:parallel-line-meets-the-ray-at-infinity", [np.asarray(x.array).tolist() for x in r])
+            return ck.result()
+        t = off / den
+        exp = [[a[0] + t * e[0], a[1] + t * e[1]]] if t >= 0 else []
+        compare(ck, list(r), exp, f"ray_line2:{mode}:{'hit' if exp else 'miss'}")
         return ck.result()
     if what == "seg_line2":
         dd = [d[0] - cc[0], d[1] - cc[1]]
